@@ -153,7 +153,7 @@ func c01Short(s string) string {
 // a fresh interpreter; o2 = the judged route after the earlier routes (if any)
 // and, for a single-route program, after itself, on a second / reused
 // interpreter.
-func c01RunReal(c c01Case, extraFresh int) (o1, o2 c01Obs, fresh []c01Obs) {
+func c01RunReal(c c01Case, extraFresh int, stopOnDiff bool) (o1, o2 c01Obs, fresh []c01Obs) {
 	src := c01Source(c.Prog)
 	done, pan := vk.WithWatchdog(20*time.Second, func() {
 		mod, err := parseSource(src)
@@ -215,7 +215,11 @@ func c01RunReal(c c01Case, extraFresh int) (o1, o2 c01Obs, fresh []c01Obs) {
 				fresh = append(fresh, *bad)
 				continue
 			}
-			fresh = append(fresh, c01Exec(in, routes[last], last, c))
+			f := c01Exec(in, routes[last], last, c)
+			fresh = append(fresh, f)
+			if stopOnDiff && f.String() != o1.String() {
+				break // one differing execution decides the determinism clause
+			}
 		}
 	})
 	if !done {
@@ -284,6 +288,13 @@ func c01Mismatch(o c01Obs, allowed []c01Outcome) string {
 
 var c01RefPanics int64
 
+// c01OrderRuns: fresh executions of an L7 program.  Go starts the iteration
+// of a small map at a random slot, so an order-dependent program over a
+// 2-key object shows its second outcome with probability ≥ 1/8 per execution;
+// 400 identical executions of a program that does depend on the order have
+// probability ≤ (7/8)^400 < 1e-23.
+const c01OrderRuns = 400
+
 func c01SafeRef(c c01Case) (res c01RefResult) {
 	defer func() {
 		if r := recover(); r != nil {
@@ -308,7 +319,16 @@ func c01Judge(c c01Case, reps int) (v c01Verdict, o1 c01Obs) {
 	if orderSens && judged {
 		extra = reps
 	}
-	o1, o2, fresh := c01RunReal(c, extra)
+	// L7 decides the determinism clause for programs whose outcome can depend on
+	// the order in which an object is iterated: the runtime's map iteration
+	// order cannot be enumerated from here, so the program is executed
+	// c01OrderRuns times on fresh interpreters and all outcomes must be
+	// identical (whatever the reference says about the value).
+	orderLayer := c.Layer == "L7" && !volatile
+	if orderLayer {
+		extra = c01OrderRuns
+	}
+	o1, o2, fresh := c01RunReal(c, extra, orderLayer)
 	v.Judged, v.Unspec = judged, ref.Unspecified
 	src := func() string { return "\n" + c01Source(c.Prog) + c01Inputs(c) }
 	for _, o := range append([]c01Obs{o1, o2}, fresh...) {
@@ -333,6 +353,20 @@ func c01Judge(c c01Case, reps int) (v c01Verdict, o1 c01Obs) {
 			v.Desc = fmt.Sprintf("language definition gives %s; interpreter gives %s%s", c01AllowedText(ref.Allowed), o1.show(), src())
 			return
 		}
+	}
+	if orderLayer {
+		for k, o := range append([]c01Obs{o2}, fresh...) {
+			if o.String() != o1.String() {
+				v.Kind = "nondeterministic"
+				what := fmt.Sprintf("execution %d of %d on a fresh interpreter", k+1, c01OrderRuns+1)
+				if k == 0 {
+					what = "the same request evaluated a second time on the same interpreter"
+				}
+				v.Desc = fmt.Sprintf("outcome is not a function of program text and inputs (it follows the runtime's random map iteration order): the first execution gives %s; %s gives %s%s", o1.show(), what, o.show(), src())
+				return
+			}
+		}
+		return
 	}
 	if !volatile {
 		if !orderSens || (judged && !ref.OrderDep) {
@@ -532,7 +566,7 @@ func c01ReadBuiltinNames() ([]string, error) {
 func TestVerif_C01(t *testing.T) {
 	log.SetOutput(io.Discard)
 	p := vk.Env()
-	res := vk.NewResult("bounded-exhaustive enumeration of GlyphLang programs in layers (L1 every operator × ordered pair of value shapes, L2 every operator pair/triple as an unparenthesised chain, L3 every statement tree up to the size bound over the template alphabet, L4 every built-in of the implementation's table × argument vectors over the shapes, L5 functions/defaults/arity, match patterns, pipes, callbacks, L6 scoping and aliasing scenarios); each program × input binding is rendered to source, run through the real lexer, parser and interpreter and compared with an independent reference semantics; a case is distinct by its source text and inputs, non-trivial (counted in distinct) if the reference assigns it an outcome")
+	res := vk.NewResult("bounded-exhaustive enumeration of GlyphLang programs in layers (L1 every operator × ordered pair of value shapes, L2 every operator pair/triple as an unparenthesised chain, L3 every statement tree up to the size bound over the template alphabet, L4 every built-in of the implementation's table × argument vectors over the shapes, L5 functions/defaults/arity, match patterns, pipes, callbacks, L6 scoping and aliasing scenarios, L7 every construct that walks the keys of an object × object sizes × literal/request-body source, each executed 400 times for the determinism clause); each program × input binding is rendered to source, run through the real lexer, parser and interpreter and compared with an independent reference semantics; a case is distinct by its source text and inputs, non-trivial (counted in distinct) if the reference assigns it an outcome")
 	names, err := c01ReadBuiltinNames()
 	if err != nil {
 		t.Fatal(err)
@@ -609,7 +643,7 @@ func TestVerif_C01(t *testing.T) {
 	if c01RefPanics > 0 {
 		res.Note("HARNESS BUG: the reference interpreter panicked %d times", c01RefPanics)
 	}
-	res.Note("not judged (reference answers Unspecified): ordering of strings; == / != across kinds and on arrays/objects; mixed ==/< chains where spec §4.2 and §4.8/§12 group differently; level of %%; short-circuit of &&/|| when the undecided side does not evaluate to a boolean; non-boolean conditions; integer overflow; negative integer division/modulo rounding; float overflow/NaN and float text form; ints beyond 2^53 mixed with floats; missing fields; obj[\"k\"]; index assignment; $ on a module-level name within the request; bare assignment to an undeclared name; for over a non-collection; iteration order of objects and keys() (all orders enumerated, outcome must be one of them); aliasing of arrays/objects (copy and share models both enumerated); fall-through of a body without return; match without a matching case; built-ins outside their documented domain; undocumented built-ins (no-crash and determinism only) except the conventional reading of append/keys/reverse/slice/flat/sort/map/filter/reduce/find/some/every/set/remove")
+	res.Note("not judged (reference answers Unspecified): ordering of strings; == / != across kinds and on arrays/objects; mixed ==/< chains where spec §4.2 and §4.8/§12 group differently; level of %%; short-circuit of &&/|| when the undecided side does not evaluate to a boolean; non-boolean conditions; integer overflow; negative integer division/modulo rounding; float overflow/NaN and float text form; ints beyond 2^53 mixed with floats; missing fields; obj[\"k\"]; index assignment; $ on a module-level name within the request; bare assignment to an undeclared name; for over a non-collection; which order objects and keys() are walked in (all orders enumerated, outcome must be one of them; that every execution uses the same one is judged, layer L7); aliasing of arrays/objects (copy and share models both enumerated); fall-through of a body without return; match without a matching case; built-ins outside their documented domain; undocumented built-ins (no-crash and determinism only) except the conventional reading of append/keys/reverse/slice/flat/sort/map/filter/reduce/find/some/every/set/remove")
 	res.Write(p)
 }
 
